@@ -4,6 +4,8 @@ import (
 	"fmt"
 	"strings"
 
+	"github.com/wundergraph/graphql-go-tools/v2/pkg/engine/resolve"
+
 	"verif/harness/pbt"
 )
 
@@ -72,7 +74,7 @@ func probeRender(in probeInput) (rendered, error) {
 	if pl.err != "" {
 		return rendered{}, fmt.Errorf("%s", pl.err)
 	}
-	return renderResolvable(pl.resp, []byte(in.Data)), nil
+	return renderResolvable(pl.resp, []byte(in.Data), resolve.ResolvableOptions{}), nil
 }
 
 var dupPathProbes = []struct {
